@@ -594,8 +594,11 @@ func (this *Writer) Close() error {
 			}
 
 			// Write end block of size 0
-			this.obs.WriteBits(0, 5) // write length-3 (5 bits max)
-			this.obs.WriteBits(0, 3)
+			if err := this.writeEndMarker(); err != nil {
+				atomic.StoreInt32(&this.closing, 0)
+				return err
+			}
+
 			atomic.StoreInt32(&this.finalized, 1)
 		}
 	}
@@ -619,6 +622,28 @@ func (this *Writer) Close() error {
 		this.buffers[i] = blockBuffer{Buf: make([]byte, 0)}
 	}
 
+	return nil
+}
+
+// Write the empty end block. The bitstream panics when a flush of its buffer
+// to the sink fails: report the failure as an error and put the stream in error
+// state (the bitstream may have kept a partially written marker).
+func (this *Writer) writeEndMarker() (err error) {
+	defer func() {
+		if r := recover(); r != nil {
+			atomic.StoreInt32(&this.blockID, _CANCEL_TASKS_ID)
+
+			switch v := r.(type) {
+			case error:
+				err = &IOError{msg: v.Error(), code: kanzi.ERR_WRITE_FILE}
+			default:
+				err = &IOError{msg: fmt.Sprint(v), code: kanzi.ERR_WRITE_FILE}
+			}
+		}
+	}()
+
+	this.obs.WriteBits(0, 5) // write length-3 (5 bits max)
+	this.obs.WriteBits(0, 3)
 	return nil
 }
 
